@@ -258,6 +258,10 @@ def kani_replay(scratch, harness, workdir_out):
             continue
         chosen = t
         break
+    if chosen is None and tests:
+        # Kani de-duplicates playback tests with identical values: the failing trace may be labelled as
+        # the cover's. Running it natively decides whether it reproduces the failure.
+        chosen = tests[0]
     if chosen is None:
         return dict(reproduced=False, test=None, values=None, log=out[-4000:], why='no counterexample emitted')
     m = re.search(r'fn (kani_concrete_playback_\w+)\(', chosen)
